@@ -151,7 +151,7 @@ pub const PROPS: &[PropSpec] = &[
     PropSpec {
         id: "C06",
         engine: "e4",
-        mix: &[("e4", 2), ("e2", 1), ("e3", 1)],
+        mix: &[("e4", 2), ("e2", 1), ("e3", 1), ("e5", 2)],
         classes: &["ctx/leak", "read/unexpected-scope", "head/wrong-topic"],
         nontrivial: &[&["http:cat-ndjson", "http:cat-sse", "http:head", "follow:live-frames", "read:sync", "win:live"]],
         must_reach: &["http:cat-ndjson", "http:head", "follow:head", "follow:tail", "follow:live-frames", "read:sync", "settle", "win:live", "ctx:registered"],
@@ -162,7 +162,7 @@ pub const PROPS: &[PropSpec] = &[
     PropSpec {
         id: "C10",
         engine: "e4",
-        mix: &[("e4", 5), ("e1", 1)],
+        mix: &[("e4", 5), ("e1", 1), ("e5", 3)],
         classes: &["cas/", "crash/cas"],
         nontrivial: &[&["http:append-ok", "cas:post", "image:kill"]],
         must_reach: &["http:append-ok", "http:chunked-body", "http:body>8KiB", "http:bodyless-append", "http:client-disconnect", "cas:post", "cas:get", "cas:empty-post", "cas:get-unknown", "image:kill", "cas:sized", "cas:stream"],
@@ -180,6 +180,39 @@ pub const PROPS: &[PropSpec] = &[
         quick_runs: 1500,
         thorough_runs: 100_000,
         rule: "a source store is built by a generated history (several contexts, all persistent TTL kinds, removes, imports, collector drains, shared content), settled and exported (all frames + referenced content); everything is imported into an empty store through POST /cas and POST /import in a seeded permutation with duplicates (context registrations optionally after the frames that use them), plus a NUL-topic frame and malformed JSON that must be refused whole; source and target must then have equal observation sets (ids, order, fields, per-context streams, heads, by-id lookups, content bytes) and equal usable contexts, immediately and after reopening the target; non-trivial = a comparison ran on a store with several contexts or with duplicate/late-registration imports; distinct = distinct trace hash",
+    },
+    PropSpec {
+        id: "C14",
+        engine: "e5",
+        mix: &[],
+        classes: &["dispatch/", "ctx/leak:handler-dispatch", "service/panic"],
+        nontrivial: &[&["dispatch:counter-checked"], &["handler:burst", "handler:unregistered", "handler:closure-error"]],
+        must_reach: &["handler:registered", "handler:burst", "dispatch:counter-checked", "output:checked", "site:engine.idle"],
+        quick_runs: 4000,
+        thorough_runs: 200_000,
+        rule: "one to several handlers (resume head / tail / after-id, optional pulse) over 1-3 contexts; the operator appends triggers, bursts (appends offered to the scheduler as steps of their own, so they land while engine worker threads are busy or starved) and foreign frames; every invocation bumps a counter kept in the handler's environment and trigger frames are answered with the counter and the id seen; oracle: counter difference between two answered triggers = number of frames of the context between them (own outputs excluded), no invocation for own output or another context, every trigger appended while active is answered; non-trivial = a counter comparison happened and a burst / unregister / closure error occurred; distinct = distinct decision-sequence hash",
+    },
+    PropSpec {
+        id: "C15",
+        engine: "e5",
+        mix: &[],
+        classes: &["output/", "ctx/leak:handler-output", "service/panic"],
+        nontrivial: &[&["output:checked"]],
+        must_reach: &["handler:registered", "output:checked", "handler:closure-error", "lifecycle:error-reported"],
+        quick_runs: 4000,
+        thorough_runs: 200_000,
+        rule: "handler scripts generated from a grammar (0-3 explicit .append with/without --meta (incl. a spoofed handler_id), --ttl, --context <other>; return value of every nu type or nothing; custom suffix / ttl; an error placed before / between / after the appends, taken when the trigger says so); oracle per trigger: explicit appends in call order then the return frame on <name><suffix> with the configured ttl, all stamped with handler and trigger id, all in the handler's context, content as rendered, nothing at all for a failing invocation; non-trivial = at least one invocation's output was checked; distinct = distinct decision-sequence hash",
+    },
+    PropSpec {
+        id: "C16",
+        engine: "e5",
+        mix: &[],
+        classes: &["lifecycle/", "service/panic"],
+        nontrivial: &[&["handler:registered"], &["handler:unregistered", "handler:closure-error", "handler:invalid-script", "handler:probe-after-registered"]],
+        must_reach: &["handler:registered", "handler:unregistered", "handler:closure-error", "handler:invalid-script", "lifecycle:invalid-reported", "lifecycle:error-reported", "handler:probe-after-registered"],
+        quick_runs: 4000,
+        thorough_runs: 200_000,
+        rule: "register / re-register / unregister / failing-trigger / invalid-script events on 2 names x 1-3 contexts; in some runs the handler's start-up is split at the points before it subscribes and before it announces, and a watching client appends a trigger the moment <name>.registered is visible; oracle: lifecycle frames per instance (one registered or one unregistered+error; at most one unregistered; nothing after it), no trigger answered by two instances of a name, every trigger appended after .registered was visible is processed; non-trivial = a registration plus a stop / invalid script / watched start happened; distinct = distinct decision-sequence hash",
     },
 ];
 
@@ -228,6 +261,7 @@ fn gen_plan_inner(spec: &PropSpec, engine: &str, thorough: bool, seed: u64) -> V
         }
         "e1" => serde_json::to_value(crate::e1::generate(seed, spec.id, thorough)).unwrap(),
         "e4" => serde_json::to_value(crate::e4::generate(seed, spec.id, thorough)).unwrap(),
+        "e5" => serde_json::to_value(crate::e5::generate(seed, spec.id, thorough)).unwrap(),
         "e20" => serde_json::to_value(crate::e4::generate20(seed, thorough)).unwrap(),
         "e2" => serde_json::to_value(crate::e2::generate(seed, spec.id, thorough)).unwrap(),
         _ => Value::Null,
@@ -243,6 +277,11 @@ pub fn exec_plan(engine: &str, plan: &Value, tag: &str) -> RunResult {
         "e20" => crate::e4::exec_value20(plan, tag),
         "e2" => {
             let (mut r, choices) = crate::e2::exec_value(plan, tag);
+            r.choices = choices;
+            r
+        }
+        "e5" => {
+            let (mut r, choices) = crate::e5::exec_value(plan, tag);
             r.choices = choices;
             r
         }
